@@ -74,9 +74,9 @@ def check_c09(tier, seed, verdict, workdir):
         terr.append(msg)
     modules = ["Bourse.Props.C09"]
     pr = C.prove(prop, modules, clean=(tier == "thorough"))
-    shards = 8 if tier == "quick" else 16
-    n_rand = 40 if tier == "quick" else 400
-    n_mix = 15 if tier == "quick" else 150
+    shards = 16
+    n_rand = 60 if tier == "quick" else 400
+    n_mix = 25 if tier == "quick" else 150
 
     def one(i):
         rc1, rand_lines = drive_lines(["sim-gen", "--seed", str(seed * 100 + i), "--n", str(n_rand), "--mix", "0"], workdir, f"r{i}")
@@ -89,7 +89,7 @@ def check_c09(tier, seed, verdict, workdir):
         sep = []
         for l in dl[:3] + dl[-3:]:
             t = l.split(" ")
-            spec = t[7:]
+            spec = t[8:]
             rc3, out = drive_lines(["sim-run"] + spec, workdir, f"p{i}")
             got = [x for x in out if x.startswith("D ")]
             sep.append((t[1], got[0].split(" ")[1] if got else "CRASH", " ".join(spec)))
@@ -114,14 +114,15 @@ def check_c09(tier, seed, verdict, workdir):
         for l in dl:
             t = l.split(" ")
             base = t[1]
-            spec = " ".join(t[7:])
+            spec = " ".join(t[8:])
             n_runs += 1
             if len(samples) < 3:
                 samples.append(spec)
-            kv = dict(x.split("=") for x in t[2:7])
+            kv = dict(x.split("=") for x in t[2:8])
             if kv["panic"] == "1":
                 n_panic += 1
             for key, what in (("progress", "progress-bar branch gives a different run"), ("again", "repeated run in the same process differs"),
+                              ("manual", "the runner differs from the documented loop `agents.update(env, rng); env.step(rng)` driven by seed_from_u64(seed)"),
                               ("hand", "derived agent set differs from the hand-written sequence")):
                 if kv[key] != base:
                     a_found.append((what, spec))
@@ -233,8 +234,8 @@ def check_c16(tier, seed, verdict, workdir):
     prop = "C16"
     modules = ["Bourse.Props.C16"]
     pr = C.prove(prop, modules, clean=(tier == "thorough"))
-    shards = 8 if tier == "quick" else 16
-    n_audit = 60 if tier == "quick" else 1500
+    shards = 16
+    n_audit = 100 if tier == "quick" else 1500
     n_rand = 30 if tier == "quick" else 300
     n_ph = 2000 if tier == "quick" else 60000
 
@@ -326,8 +327,8 @@ def check_c17(tier, seed, verdict, workdir):
     prop = "C17"
     modules = ["Bourse.Props.C17"]
     pr = C.prove(prop, modules, clean=False)
-    shards = 8 if tier == "quick" else 16
-    n = 80 if tier == "quick" else 1500
+    shards = 16
+    n = 120 if tier == "quick" else 1500
 
     def one(i):
         rc, lines = drive_lines(["momentum", "--seed", str(seed * 100 + i), "--n", str(n)], workdir, f"m{i}")
